@@ -1,9 +1,12 @@
 (** C18 — comparison series depend only on the result set; bootstrap summaries
     are sane; date normalisation.  Statements only; proofs are in
-    Proofs/{Series,SeriesPerm,SeriesWitness,Bootstrap,Dates,DatesOrder}.v. *)
-From Coq Require Import Permutation.
-From Perf Require Import Base.Bytes Base.B64 Model.Dates Model.Bootstrap Model.Series
-     Proofs.Dates Proofs.DatesOrder Proofs.Bootstrap Proofs.Series Proofs.SeriesPerm Proofs.SeriesWitness.
+    Proofs/{Series,SeriesPerm,SeriesWitness,SeriesSpec,Bootstrap,BootstrapHull,
+    PercentileReal,BootstrapPercentile,Dates,DatesOrder}.v. *)
+From Coq Require Import Permutation Reals.
+From Flocq Require Import Core BinarySingleNaN.
+From Perf Require Import Base.Bytes Base.B64 Base.Usort Model.Dates Model.Bootstrap Model.BootstrapSpec Model.Series Model.SeriesSpec
+     Proofs.Dates Proofs.DatesOrder Proofs.Bootstrap Proofs.Series Proofs.SeriesPerm Proofs.SeriesWitness
+     Proofs.SeriesSpec Proofs.B64Flocq Proofs.LegacyMean Proofs.PercentileReal Proofs.BootstrapHull Proofs.BootstrapPercentile.
 Local Open Scope Z_scope.
 
 (** * dates *)
@@ -100,6 +103,64 @@ Theorem C18_series_perm_invariant : forall combine rs rs' en en',
 Proof. exact series_perm_invariant. Qed.
 Print Assumptions C18_series_perm_invariant.
 
+(** ** the declarative specification (Model/SeriesSpec.v: everything is said
+    by filtering the result set) is met by the model for ALL well-formed
+    result sets, both policies and every valid enumeration of the Go maps; the
+    harness tests the real code against the same [spec_series] *)
+Theorem C18_series_meets_spec : forall combine rs en,
+  WFset rs -> valid_enum (adds rs) en ->
+  canon (all_comparison_series combine (adds rs) en) = spec_series combine rs.
+Proof. exact series_meets_spec. Qed.
+Print Assumptions C18_series_meets_spec.
+
+(** the i-th series is that of the i-th (unit, table) pair in sorted order *)
+Theorem C18_series_units : forall combine rs en l,
+  WFset rs -> valid_enum (adds rs) en ->
+  canon (all_comparison_series combine (adds rs) en) = Some l ->
+  map se_unit l = map (fun ut => ustring (fst ut) (snd ut))
+                      (usort cmp2 (map (fun r => (r_unit r, r_table r)) rs)).
+Proof. exact series_units. Qed.
+
+(** sample membership: the numerator samples of a series point are EXACTLY
+    (with multiplicities) the measurements whose role is numerator and whose
+    unit, table, benchmark and normalised series stamp match - under REPLACE
+    also the normalised experiment date (the latest) -; the denominator
+    samples are exactly the denominator measurements of the same unit, table
+    and benchmark whose experiment is the experiment of a matching numerator
+    ([num_matches], [den_matches]: Model/SeriesSpec.v).  The table is
+    identified by its position because the label [ustring u t] is not
+    injective (a unit may contain a space). *)
+Theorem C18_sample_membership : forall combine rs en l i ser u t cell,
+  WFset rs -> valid_enum (adds rs) en ->
+  canon (all_comparison_series combine (adds rs) en) = Some l ->
+  nth_error l i = Some ser ->
+  nth_error (usort cmp2 (map (fun r => (r_unit r, r_table r)) rs)) i = Some (u, t) ->
+  In cell (se_cells ser) ->
+  Permutation (oc_num cell) (map r_val (filter (num_matches combine u t cell) rs)) /\
+  Permutation (oc_den cell) (map r_val (filter (den_matches combine u t cell rs) rs)).
+Proof. exact sample_membership. Qed.
+Print Assumptions C18_sample_membership.
+
+Theorem C18_sample_membership_in : forall combine rs en l ser,
+  WFset rs -> valid_enum (adds rs) en ->
+  canon (all_comparison_series combine (adds rs) en) = Some l ->
+  In ser l ->
+  exists u t, In (u, t) (map (fun r => (r_unit r, r_table r)) rs) /\ se_unit ser = ustring u t /\
+    forall cell, In cell (se_cells ser) ->
+      Permutation (oc_num cell) (map r_val (filter (num_matches combine u t cell) rs)) /\
+      Permutation (oc_den cell) (map r_val (filter (den_matches combine u t cell rs) rs)).
+Proof. exact sample_membership_in. Qed.
+
+(** the executable well-formedness test of the harness is sound for WFset *)
+Theorem C18_wfset_b_sound : forall rs, wf_a rs && wf_b rs && wf_c rs && wf_d rs = true -> WFset rs.
+Proof. exact wfset_b_sound. Qed.
+
+(** non-vacuity: an 11-result set (2 tables, 3 benchmarks, 2 experiments, 2
+    series points) is well-formed and its series are computed *)
+Example C18_series_spec_example :
+  WFset Ex.rs /\ spec_series false Ex.rs = Some ex_replace /\ spec_series true Ex.rs = Some ex_combine.
+Proof. split; [exact ex_wf|exact ex_spec]. Qed.
+
 (** valid enumerations exist: the one in order of first insertion, which is the
     one the correspondence run evaluates the model with *)
 Theorem C18_first_enum_valid : forall rs, valid_enum (adds rs) (first_enum rs).
@@ -145,6 +206,139 @@ Print Assumptions C18_bootstrap_ordered.
 Theorem C18_bootstrap_reproducible : forall nu de nu' de',
   nu = nu' -> de = de' -> bootstrap_seed nu de = bootstrap_seed nu' de'.
 Proof. exact bootstrap_reproducible. Qed.
+
+(** ** the hull of attainable ratios (positive samples)
+    [hull_lo nu de] = min num / max den, [hull_hi nu de] = max num / min den in
+    binary64; [pos_sample]: canonical, finite, > 0 (subnormals included);
+    [intn_stream]: every replayed index is one r.Intn(len) can return;
+    [hull_guard] (Model/BootstrapSpec.v) is the exact no-overflow guard:
+    (a) for a sample of even size the sum of two copies of its maximum is
+    finite (the resampled median forms a + b before halving), (b) the upper
+    hull bound max num / min den is finite, (c) for even N the sum of two
+    copies of it is finite (median of the ratios).  There is NO underflow
+    condition: the lower bound may be subnormal or zero. *)
+Theorem C18_bootstrap_centre_in_hull : forall nu de conf n stream sorted s,
+  nu <> [] -> de <> [] -> n <> O ->
+  forallb pos_sample nu = true -> forallb pos_sample de = true ->
+  intn_stream n (length nu) (length de) stream = true ->
+  hull_guard nu de n = true ->
+  ratio nu de conf n stream = Some (sorted, Some s) ->
+  b64_le (hull_lo nu de) (s_center s) = true /\ b64_le (s_center s) (hull_hi nu de) = true.
+Proof. exact bootstrap_centre_in_hull. Qed.
+Print Assumptions C18_bootstrap_centre_in_hull.
+
+(** every one of the N bootstrap ratios lies in the hull *)
+Theorem C18_bootstrap_ratios_in_hull : forall nu de conf n stream sorted o,
+  nu <> [] -> de <> [] -> n <> O ->
+  forallb pos_sample nu = true -> forallb pos_sample de = true ->
+  intn_stream n (length nu) (length de) stream = true ->
+  hull_guard nu de n = true ->
+  ratio nu de conf n stream = Some (sorted, o) ->
+  length sorted = n /\
+  Forall (fun r => b64_le (hull_lo nu de) r = true /\ b64_le r (hull_hi nu de) = true) sorted.
+Proof. exact bootstrap_ratios_in_hull. Qed.
+
+(** the guard is necessary: nu = {MaxFloat64, MaxFloat64}, de = {1}, N = 1: the
+    resampled median (M + M) / 2 is +Inf, outside the finite hull *)
+Theorem C18_centre_in_hull_needs_guard :
+  let nu := [f_max; f_max] in let de := [b64_one] in
+  forallb pos_sample nu = true /\ forallb pos_sample de = true /\
+  intn_stream 1 2 1 [0; 1; 0] = true /\ hull_guard nu de 1 = false /\
+  exists sorted s, ratio nu de (b64_div b64_one b64_two) 1 [0; 1; 0] = Some (sorted, Some s) /\
+                   b64_le (s_center s) (hull_hi nu de) = false.
+Proof. exact centre_in_hull_needs_guard. Qed.
+
+(** ** the known finding quantified: what percentile's interpolation
+    RN(RN(r * RN(1-x)) + RN(a[i+1] * x)) can do.  [val] is the real value of a
+    finite float64, [ulp64] Flocq's unit in the last place of binary64
+    (ulp64 0 = 2^-1074).  On any non-empty vector (fewer than 2^53 entries) of
+    values within [m, M], 0 <= m, a finite result v of percentile satisfies
+    m - 2 ulp(m) < v <= M + ulp(M); the only other result is +Inf (overflow of
+    the final addition, possible only for M = MaxFloat64). *)
+Theorem C18_percentile_bounds : forall (m M : Rdefinitions.R) a (P : Bf) v,
+  a <> [] -> Z.of_nat (length a) < 2 ^ 53 -> Forall (inR m M) a -> F64 m -> F64 M -> (0 <= m)%R ->
+  percentile a (B2SF P) = Some v ->
+  exists V : Bf, v = B2SF V /\
+    (is_finite V = true -> (m - 2 * ulp64 m < B2R V <= M + ulp64 M)%R) /\
+    (is_finite V = false -> B2SF V = S754_infinity false).
+Proof. exact percentile_bounds. Qed.
+Print Assumptions C18_percentile_bounds.
+
+(** low and high of the repaired summary of ANY vector of non-negative finite
+    ratios: at most one ulp above the largest ratio, less than two ulps below
+    the smallest, and ordered around the centre.  Guards: [even_guard] (median
+    of an even number of ratios) and finiteness of the returned high (can fail
+    only when the largest ratio is MaxFloat64; an overflowing low is +Inf and
+    is clamped to the centre, so low needs no guard). *)
+Theorem C18_summary_low_high_near_range : forall conf sorted s,
+  valid conf = true -> sorted <> [] -> Z.of_nat (length sorted) < 2 ^ 53 ->
+  forallb nonneg_finite sorted = true ->
+  even_guard (length sorted) (fmax sorted) = true ->
+  summarize conf sorted = Some s ->
+  b64_is_finite (s_high s) = true ->
+  let rmin := val (fmin sorted) in let rmax := val (fmax sorted) in
+  (rmin - 2 * ulp64 rmin < val (s_low s) <= rmax + ulp64 rmax)%R /\
+  (rmin - 2 * ulp64 rmin < val (s_high s) <= rmax + ulp64 rmax)%R /\
+  b64_le (s_low s) (s_center s) = true /\ b64_le (s_center s) (s_high s) = true.
+Proof. exact summary_low_high_near_range. Qed.
+
+(** positive samples: low and high lie in the hull widened by that rounding
+    error, and low <= centre <= high *)
+Theorem C18_bootstrap_low_high_in_hull_up_to_one_ulp : forall nu de conf n stream sorted s,
+  nu <> [] -> de <> [] -> n <> O -> Z.of_nat n < 2 ^ 53 ->
+  forallb pos_sample nu = true -> forallb pos_sample de = true ->
+  valid conf = true ->
+  intn_stream n (length nu) (length de) stream = true ->
+  hull_guard nu de n = true ->
+  ratio nu de conf n stream = Some (sorted, Some s) ->
+  b64_is_finite (s_high s) = true ->
+  let lo := val (hull_lo nu de) in let hi := val (hull_hi nu de) in
+  (lo - 2 * ulp64 lo < val (s_low s) <= hi + ulp64 hi)%R /\
+  (lo - 2 * ulp64 lo < val (s_high s) <= hi + ulp64 hi)%R /\
+  b64_le (s_low s) (s_center s) = true /\ b64_le (s_center s) (s_high s) = true.
+Proof. exact bootstrap_low_high_in_hull_up_to_one_ulp. Qed.
+Print Assumptions C18_bootstrap_low_high_in_hull_up_to_one_ulp.
+
+(** ... and, more sharply, in the range [rmin, rmax] of the bootstrap ratios
+    themselves (which is inside the hull) widened by the same error *)
+Theorem C18_bootstrap_low_high_near_ratio_range : forall nu de conf n stream sorted s,
+  nu <> [] -> de <> [] -> n <> O -> Z.of_nat n < 2 ^ 53 ->
+  forallb pos_sample nu = true -> forallb pos_sample de = true ->
+  valid conf = true ->
+  intn_stream n (length nu) (length de) stream = true ->
+  hull_guard nu de n = true ->
+  ratio nu de conf n stream = Some (sorted, Some s) ->
+  b64_is_finite (s_high s) = true ->
+  let rmin := val (fmin sorted) in let rmax := val (fmax sorted) in
+  (val (hull_lo nu de) <= rmin)%R /\ (rmax <= val (hull_hi nu de))%R /\
+  (rmin - 2 * ulp64 rmin < val (s_low s) <= rmax + ulp64 rmax)%R /\
+  (rmin - 2 * ulp64 rmin < val (s_high s) <= rmax + ulp64 rmax)%R.
+Proof. exact bootstrap_low_high_near_ratio_range. Qed.
+
+(** the rounding analysis behind it (pure real numbers, binary64 format) *)
+Theorem C18_interp_upper : forall M r s x : Rdefinitions.R,
+  F64 M -> (0 <= r <= M)%R -> (0 <= s <= M)%R -> (0 <= x <= 1)%R ->
+  (RN (RN (r * RN (1 - x)) + RN (s * x)) <= M + ulp64 M)%R.
+Proof. exact interp_upper. Qed.
+Theorem C18_interp_lower : forall m r s x : Rdefinitions.R,
+  F64 m -> (0 <= m)%R -> (m <= r)%R -> (m <= s)%R -> (0 <= x <= 1)%R ->
+  (m - 2 * ulp64 m < RN (RN (r * RN (1 - x)) + RN (s * x)))%R.
+Proof. exact interp_lower. Qed.
+
+(** non-vacuity: nu = {1,2,3}, de = {3,4,5}, confidence 0.95, N = 4 *)
+Example C18_hull_example :
+  let f z := b64_of_Z z in
+  let nu := [f 1; f 2; f 3] in let de := [f 3; f 4; f 5] in
+  let conf := b64_div (f 95) (f 100) in
+  let stream := [0; 1; 2; 2; 1; 0; 1; 1; 2; 0; 0; 1; 2; 2; 2; 1; 1; 0; 0; 0; 1; 2; 1; 0] in
+  forallb pos_sample nu = true /\ forallb pos_sample de = true /\ valid conf = true /\
+  intn_stream 4 3 3 stream = true /\ hull_guard nu de 4 = true /\
+  exists sorted s, ratio nu de conf 4 stream = Some (sorted, Some s) /\ summary_finite s = true /\
+                   forallb nonneg_finite sorted = true /\ even_guard (length sorted) (fmax sorted) = true.
+Proof.
+  cbv zeta. repeat (split; [vm_compute; reflexivity|]).
+  eexists. eexists. split; [vm_compute; reflexivity|]. repeat split; vm_compute; reflexivity.
+Qed.
 
 (** the code as it stood: low > centre (repaired by hooks/fix_c18_percentile.diff) *)
 Theorem C18_ordered_refuted :
